@@ -1,4 +1,5 @@
 """C05 - each authorization is solved with the configured challenge and the right proof."""
+import os
 import itertools, random
 import flows, flowcheck
 from common import ToolError
@@ -150,6 +151,7 @@ def specs_for(tier, seed):
 
 
 def run(ctx):
+    os.environ["VERIF_TOKEN_SHAPES"] = "1"       # the mock CA's tokens begin and end with `-` / `_` in turn (lib/mockca.py)
     mc = flowcheck.model_check("C05", ctx.tier)
     specs = specs_for(ctx.tier, ctx.seed)
     results = flows.run_many(specs, workers=12)
